@@ -1,10 +1,18 @@
 (* Model of Table.render (C14): the available width, CellWrapper.fit (row set-up, the short / long column split,
    the proportional distribution of the width over the long columns, per-cell wrapping, column refresh) and
-   BorderUtil.draw_border / draw_row.  Cells carry no style tags (every text is free of '<'), so the formatter is
-   the identity on every string it is handed and get_string_length is the length; tagged cells are examined by
-   the implementation-side oracle only.  The share  int(round(length / actual * available))  is float arithmetic
-   in the code: the model takes it as a function argument (the theorems hold for every such function). *)
-From Clikit Require Import Base.Prelude Base.Res Model.Markup Model.Wrap.
+   BorderUtil.draw_border / draw_row.
+   Two layers.  (1) The tag-free table (render_table): cells carry no style tags (every text is free of '<'), so the
+   formatter is the identity on every string it is handed and get_string_length is the length.  (2) The table as the
+   code runs it, with the formatter threaded through (render_table_f): every length is the VISIBLE length
+   len(formatter.remove_format(cell)), a row is drawn with the raw cell text and padding computed from visible lengths,
+   and the finished line is read as markup once, by io.write (format when the output decorates, remove_format
+   otherwise); the style objects of the table style are None (true of every predefined style; BorderUtil._format then
+   returns the string as it is); a cell whose markup makes the formatter raise makes render raise.  A cell holding '<' that would have
+   to be wrapped (its column is narrower than its visible length: the code wraps by raw length and cuts tags - the
+   recorded finding) is outside the model: Err (Other 20).  On tag-free tables (2) is (1) (TableTaggedLemmas).
+   The share  int(round(length / actual * available))  is float arithmetic in the code: the model takes it as a
+   function argument (the theorems hold for every such function). *)
+From Clikit Require Import Base.Prelude Base.Res Model.Conv Model.Markup Model.OutputM Model.Wrap.
 
 Definition zlen (s : str) : Z := Z.of_nat (length s).
 Fixpoint t_rstrip_rev (r : str) : str := match r with c :: r' => if is_space c then t_rstrip_rev r' else r | [] => [] end.
@@ -31,12 +39,13 @@ Fixpoint set_nth {X} (k : nat) (x : X) (l : list X) : list X :=
 (* ---- CellWrapper ---- *)
 Record fitst := { f_rows : list (list str); f_lens : list (list Z); f_cols : list Z; f_wraps : bool; f_cuts : bool }.
 
-Fixpoint chunk (fuel n : nat) (l : list str) : list (list str) :=
+Fixpoint chunk {X} (fuel n : nat) (l : list X) : list (list X) :=
   match fuel with
   | O => []
   | S f => match l with [] => [] | _ => firstn n l :: chunk f n (skipn n l) end
   end.
 Definition pad_row (n : nat) (r : list str) : list str := r ++ repeat [] (n - length r).
+Definition pad_lens (n : nat) (r : list Z) : list Z := r ++ repeat 0%Z (n - length r).
 Fixpoint zip_max (a b : list Z) : list Z :=
   match a, b with x :: a', y :: b' => Z.max x y :: zip_max a' b' | _, _ => a end.
 Definition col_lengths (n : nat) (lens : list (list Z)) : list Z := fold_left zip_max lens (repeat 0%Z n).
@@ -49,6 +58,16 @@ Definition init_state (n : nat) (cells : list str) : res fitst :=
     let rows := map (pad_row n) (chunk (length cells) n cells) in
     let lens := map (map zlen) rows in
     Ok {| f_rows := rows; f_lens := lens; f_cols := col_lengths n lens; f_wraps := false; f_cuts := false |}
+  end.
+
+(* the same with the cell lengths handed in (the visible lengths, measured with the formatter) *)
+Definition init_state_l (n : nat) (cells : list str) (lens : list Z) : res fitst :=
+  match n, cells with
+  | O, _ :: _ => Err (Other 3)
+  | _, _ =>
+    let rows := map (pad_row n) (chunk (length cells) n cells) in
+    let ls := map (pad_lens n) (chunk (length lens) n lens) in
+    Ok {| f_rows := rows; f_lens := ls; f_cols := col_lengths n ls; f_wraps := false; f_cuts := false |}
   end.
 
 (* one sweep over the columns with the threshold  available / number of columns  fixed at its start;
@@ -72,50 +91,55 @@ Fixpoint short_loop (fuel : nat) (n : Z) (long : list (option Z)) (av : Z) : opt
 Definition count_some (l : list (option Z)) : Z := zsum (map (fun o => match o with Some _ => 1 | None => 0 end)%Z l).
 Definition sum_some (l : list (option Z)) : Z := zsum (map (fun o => match o with Some x => x | None => 0 end)%Z l).
 
-(* _wrap_column on one cell *)
-Definition wrap_cell (w : Z) (cuts : bool) (cell : str) (len : Z) : res (str * Z * bool * bool) :=
+(* _wrap_column on one cell; g cell: the cell is outside the model when it has to be wrapped (a cell with markup:
+   textwrap works on the raw text).  On a cell without '<' remove_format is the identity and leaves the formatter
+   as it is, so get_max_word_length / get_max_line_length are the plain ones. *)
+Definition has_lt (s : str) : bool := existsb (N.eqb LT) s.
+Definition wrap_cell (g : str -> bool) (w : Z) (cuts : bool) (cell : str) (len : Z) : res (str * Z * bool * bool) :=
   if (w <? len)%Z then
+    if g cell then Err (Other 20) else
     let cuts' := cuts || (w <? max_word cell 0 0)%Z in
     do ls <- wrap cell w;
     let wc := join_with 10%N ls in
     Ok (wc, max_line_len wc, true, cuts')
   else Ok (cell, len, false, cuts).
-Fixpoint wrap_col (col : nat) (w : Z) (rows : list (list str)) (lens : list (list Z)) (wr cu : bool)
+Fixpoint wrap_col (g : str -> bool) (col : nat) (w : Z) (rows : list (list str)) (lens : list (list Z)) (wr cu : bool)
   : res (list (list str) * list (list Z) * bool * bool) :=
   match rows, lens with
   | row :: rows', ln :: lens' =>
-    do x <- wrap_cell w cu (nth col row []) (nth col ln 0%Z);
+    do x <- wrap_cell g w cu (nth col row []) (nth col ln 0%Z);
     let '(c', l', wrapped, cu') := x in
-    do y <- wrap_col col w rows' lens' (wr || wrapped) cu';
+    do y <- wrap_col g col w rows' lens' (wr || wrapped) cu';
     let '(rs, ls, wr', cu'') := y in
     Ok (set_nth col c' row :: rs, set_nth col l' ln :: ls, wr', cu'')
   | _, _ => Ok ([], [], wr, cu)
   end.
 (* _refresh_column_length *)
 Definition col_max (col : nat) (lens : list (list Z)) : Z := zmax_list (map (fun ln => nth col ln 0%Z) lens).
-Definition fit_column (col : nat) (w : Z) (st : fitst) : res fitst :=
-  do x <- wrap_col col w (f_rows st) (f_lens st) (f_wraps st) (f_cuts st);
+Definition fit_column (g : str -> bool) (col : nat) (w : Z) (st : fitst) : res fitst :=
+  do x <- wrap_col g col w (f_rows st) (f_lens st) (f_wraps st) (f_cuts st);
   let '(rs, ls, wr, cu) := x in
   Ok {| f_rows := rs; f_lens := ls; f_cols := set_nth col (col_max col ls) (f_cols st); f_wraps := wr; f_cuts := cu |}.
 
 (* the distribution loop: av = width available to the long columns, rem = what is left of it,
    actual = running sum of the long columns' lengths *)
-Fixpoint distribute (share : Z -> Z -> Z -> Z) (av : Z) (long : list (option Z)) (col : nat) (actual rem : Z) (st : fitst) : res fitst :=
+Fixpoint distribute (g : str -> bool) (share : Z -> Z -> Z -> Z) (av : Z) (long : list (option Z)) (col : nat) (actual rem : Z) (st : fitst) : res fitst :=
   match long with
   | [] => Ok st
-  | None :: r => distribute share av r (S col) actual rem st
+  | None :: r => distribute g share av r (S col) actual rem st
   | Some len :: r =>
     let after := count_some r in
     do w <- (if (after =? 0)%Z then Ok rem
              else if (actual =? 0)%Z then Err (Other 9)               (* ZeroDivisionError *)
              else Ok (Z.max 1 (Z.min (share len actual av) (rem - after))));
-    do st' <- fit_column col w st;
+    do st' <- fit_column g col w st;
     let new := nth col (f_cols st') 0%Z in
-    distribute share av r (S col) (actual - len + new) (rem - new) st'
+    distribute g share av r (S col) (actual - len + new) (rem - new) st'
   end.
 
-Definition fit (share : Z -> Z -> Z -> Z) (max_total : Z) (n : nat) (cells : list str) : res fitst :=
-  do st <- init_state n (map t_rstrip cells);
+(* fit on cells already right-stripped, with their lengths *)
+Definition fit_g (g : str -> bool) (share : Z -> Z -> Z -> Z) (max_total : Z) (n : nat) (cells : list str) (lens : list Z) : res fitst :=
+  do st <- init_state_l n cells lens;
   if (zsum (f_cols st) <=? max_total)%Z then Ok st
   else
     match n with
@@ -123,9 +147,12 @@ Definition fit (share : Z -> Z -> Z -> Z) (max_total : Z) (n : nat) (cells : lis
     | _ =>
       match short_loop (S n) (Z.of_nat n) (map Some (f_cols st)) max_total with
       | None => Err (Other 8)            (* out of fuel: never (TableLemmas.short_loop_fuel) *)
-      | Some (av, long) => distribute share av long 0 (sum_some long) av st
+      | Some (av, long) => distribute g share av long 0 (sum_some long) av st
       end
     end.
+(* cells without markup: the length is the length, nothing is outside the model *)
+Definition fit (share : Z -> Z -> Z -> Z) (max_total : Z) (n : nat) (cells : list str) : res fitst :=
+  fit_g (fun _ => false) share max_total n (map t_rstrip cells) (map zlen (map t_rstrip cells)).
 
 (* ---- styles ---- *)
 Record bstyle := { b_ht : str; b_hc : str; b_hb : str; b_vl : str; b_vc : str; b_vr : str;
@@ -158,12 +185,14 @@ Definition draw_border (ind : Z) (lens : list Z) (lc l c r : str) : str :=
   | line => line ++ [10%N]
   end.
 
+(* the cell line with t padding characters around it *)
+Definition fill (pad : str) (align t : Z) (line : str) : str :=
+  if (align =? 0)%Z then line ++ rep pad t
+  else if (align =? 1)%Z then rep pad t ++ line
+  else let l := (t / 2)%Z in rep pad l ++ line ++ rep pad (t - l).
 Definition pad_cell (pad : str) (align w : Z) (line : str) : option str :=
   let t := (w - zlen line)%Z in
-  if (t <? 0)%Z then None
-  else Some (if (align =? 0)%Z then line ++ rep pad t
-             else if (align =? 1)%Z then rep pad t ++ line
-             else let l := (t / 2)%Z in rep pad l ++ line ++ rep pad (t - l)).
+  if (t <? 0)%Z then None else Some (fill pad align t line).
 Fixpoint row_line (pre suf pad vc vr : str) (i : nat) (cells : list (list str)) (cols aligns : list Z) : str :=
   match cells, cols, aligns with
   | c :: cells', w :: cols', a :: aligns' =>
@@ -178,26 +207,111 @@ Definition draw_row (b : bstyle) (pre suf pad : str) (ind : Z) (row : list str) 
   let total := fold_right Nat.max O (map (@length str) cells) in
   flat_map (fun i => t_rstrip (blanks ind ++ b_vl b ++ row_line pre suf pad (b_vc b) (b_vr b) i cells cols aligns) ++ [10%N]) (seq 0 total).
 
-(* Table.render: the text written, the wrapped rows and the column lengths *)
+(* Table._render_rows on a fitted state *)
+Definition draw_table (s : tstyle) (header : list str) (ind : Z) (st : fitst) (al : list Z) : str :=
+  let b := t_border s in
+  let bl := map (fun l => (l + excess s)%Z) (f_cols st) in
+  let body := match header with [] => f_rows st | _ => tl (f_rows st) end in
+  draw_border ind bl (b_ht b) (b_tl b) (b_ct b) (b_tr b) ++
+  (match header with
+   | [] => []
+   | _ => draw_row b (t_hpre s) (t_hsuf s) (t_pad s) ind (hd [] (f_rows st)) (f_cols st) al ++
+          draw_border ind bl (b_hc b) (b_cl b) (b_cc b) (b_cr b)
+   end) ++
+  flat_map (fun row => draw_row b (t_cpre s) (t_csuf s) (t_pad s) ind row (f_cols st) al) body ++
+  draw_border ind bl (b_hb b) (b_bl b) (b_cb b) (b_br b).
+(* on right-stripped cells with their lengths *)
+Definition render_pure (g : str -> bool) (share : Z -> Z -> Z -> Z) (s : tstyle) (n : nat) (header cells : list str) (lens : list Z) (W ind : Z)
+  : res (fitst * str) :=
+  do st <- fit_g g share (available_width s W ind (Z.of_nat n)) n cells lens;
+  do al <- alignments s (length (f_cols st));
+  Ok (st, draw_table s header ind st al).
+Definition empty_fit : fitst := {| f_rows := []; f_lens := []; f_cols := []; f_wraps := false; f_cuts := false |}.
+
+(* Table.render of a tag-free table: the text written, the wrapped rows and the column lengths *)
 Definition render_table (share : Z -> Z -> Z -> Z) (s : tstyle) (n : nat) (header : list str) (rows : list (list str)) (W ind : Z)
   : res (fitst * str) :=
   match rows with
-  | [] => Ok ({| f_rows := []; f_lens := []; f_cols := []; f_wraps := false; f_cuts := false |}, [])
+  | [] => Ok (empty_fit, [])
+  | _ => let cs := map t_rstrip (header ++ concat rows) in
+         render_pure (fun _ => false) share s n header cs (map zlen cs) W ind
+  end.
+
+(* ---- the table as the code runs it: the formatter threaded through ---- *)
+(* get_string_length(cell, formatter) over the cells in their order *)
+Fixpoint measure (f : formatter) (cells : list str) : res (formatter * list Z) :=
+  match cells with
+  | [] => Ok (f, [])
+  | c :: r => do x <- remove_format f c; do y <- measure (fst x) r; Ok (fst y, zlen (snd x) :: snd y)
+  end.
+(* Output.write: format or remove_format according to _format_output *)
+Definition out_write (on : bool) (f : formatter) (s : str) : res (formatter * str) :=
+  if on then format f s None else remove_format f s.
+Fixpoint run_steps (steps : list (formatter -> res (formatter * str))) (f : formatter) : res (formatter * str) :=
+  match steps with
+  | [] => Ok (f, [])
+  | s :: r => do x <- s f; do y <- run_steps r (fst x); Ok (fst y, snd x ++ snd y)
+  end.
+(* draw_border: io.write(line + newline); the border style object is None (true of every predefined style), so
+   BorderUtil._format hands the line back as it is and the output reads it as markup once *)
+Definition draw_border_f (on : bool) (ind : Z) (lens : list Z) (lc l c r : str) (f : formatter) : res (formatter * str) :=
+  match t_rstrip (blanks ind ++ l ++ border_body lc c r lens) with
+  | [] => Ok (f, [])
+  | line => out_write on f (line ++ [10%N])
+  end.
+(* one cell of one line: get_string_length(cell_line, io), the padding around the RAW cell line, the cell format
+   (cell style None: not formatted here), the separator *)
+Definition cell_f (pre suf pad : str) (a w : Z) (piece sep : str) (f : formatter) : res (formatter * str) :=
+  do x <- remove_format f piece;
+  let t := (w - zlen (snd x))%Z in
+  Ok (fst x, if (t <? 0)%Z then [] else pre ++ fill pad a t piece ++ suf ++ sep).
+Fixpoint row_steps (pre suf pad vc vr : str) (i : nat) (cells : list (list str)) (cols aligns : list Z) : list (formatter -> res (formatter * str)) :=
+  match cells, cols, aligns with
+  | c :: cells', w :: cols', a :: aligns' =>
+    cell_f pre suf pad a w (nth i c []) (match cells' with [] => vr | _ => vc end) :: row_steps pre suf pad vc vr i cells' cols' aligns'
+  | _, _, _ => []
+  end.
+(* one line of a row: io.write(line.rstrip() + newline) - the one place where the line is read as markup *)
+Definition line_f (on : bool) (pre suf pad vl vc vr : str) (ind : Z) (cells : list (list str)) (cols aligns : list Z) (i : nat) (f : formatter)
+  : res (formatter * str) :=
+  do x <- run_steps (row_steps pre suf pad vc vr i cells cols aligns) f;
+  out_write on (fst x) (t_rstrip (blanks ind ++ vl ++ snd x) ++ [10%N]).
+Definition draw_row_f (on : bool) (b : bstyle) (pre suf pad : str) (ind : Z) (row : list str) (cols aligns : list Z) (f : formatter)
+  : res (formatter * str) :=
+  let cells := map (split_on 10%N) row in
+  let total := fold_right Nat.max O (map (@length str) cells) in
+  run_steps (map (line_f on pre suf pad (b_vl b) (b_vc b) (b_vr b) ind cells cols aligns) (seq 0 total)) f.
+Definition draw_table_f (on : bool) (s : tstyle) (header : list str) (ind : Z) (st : fitst) (al : list Z) : formatter -> res (formatter * str) :=
+  let b := t_border s in
+  let bl := map (fun l => (l + excess s)%Z) (f_cols st) in
+  let body := match header with [] => f_rows st | _ => tl (f_rows st) end in
+  run_steps
+    ([draw_border_f on ind bl (b_ht b) (b_tl b) (b_ct b) (b_tr b)] ++
+     (match header with
+      | [] => []
+      | _ => [draw_row_f on b (t_hpre s) (t_hsuf s) (t_pad s) ind (hd [] (f_rows st)) (f_cols st) al;
+              draw_border_f on ind bl (b_hc b) (b_cl b) (b_cc b) (b_cr b)]
+      end) ++
+     map (fun row => draw_row_f on b (t_cpre s) (t_csuf s) (t_pad s) ind row (f_cols st) al) body ++
+     [draw_border_f on ind bl (b_hb b) (b_bl b) (b_cb b) (b_br b)]).
+(* CellWrapper.fit(max_total, n, formatter) *)
+Definition fit_f (share : Z -> Z -> Z -> Z) (f : formatter) (max_total : Z) (n : nat) (cells : list str) : res (formatter * fitst) :=
+  let cs := map t_rstrip cells in
+  match n, cs with
+  | O, _ :: _ => Err (Other 3)
+  | _, _ => do m <- measure f cs; do st <- fit_g has_lt share max_total n cs (snd m); Ok (fst m, st)
+  end.
+(* Table.render(io, indentation): on = the output decorates (_format_output) *)
+Definition render_table_f (share : Z -> Z -> Z -> Z) (on : bool) (f : formatter) (s : tstyle) (n : nat) (header : list str) (rows : list (list str)) (W ind : Z)
+  : res (fitst * str) :=
+  match rows with
+  | [] => Ok (empty_fit, [])
   | _ =>
-    do st <- fit share (available_width s W ind (Z.of_nat n)) n (header ++ concat rows);
+    do x <- fit_f share f (available_width s W ind (Z.of_nat n)) n (header ++ concat rows);
+    let st := snd x in
     do al <- alignments s (length (f_cols st));
-    let b := t_border s in
-    let bl := map (fun l => (l + excess s)%Z) (f_cols st) in
-    let body := match header with [] => f_rows st | _ => tl (f_rows st) end in
-    Ok (st,
-        draw_border ind bl (b_ht b) (b_tl b) (b_ct b) (b_tr b) ++
-        (match header with
-         | [] => []
-         | _ => draw_row b (t_hpre s) (t_hsuf s) (t_pad s) ind (hd [] (f_rows st)) (f_cols st) al ++
-                draw_border ind bl (b_hc b) (b_cl b) (b_cc b) (b_cr b)
-         end) ++
-        flat_map (fun row => draw_row b (t_cpre s) (t_csuf s) (t_pad s) ind row (f_cols st) al) body ++
-        draw_border ind bl (b_hb b) (b_bl b) (b_cb b) (b_br b))
+    do d <- draw_table_f on s header ind st al (fst x);
+    Ok (st, snd d)
   end.
 
 (* the shape of a style under which the drawn lines form a rectangle (true of the four presets; checked on every case) *)
@@ -232,20 +346,27 @@ Definition dec_tstyle (s : sexp) : option tstyle :=
   end.
 Definition enc_fit (st : fitst) : list sexp :=
   [sList (fun z => A z) (f_cols st); sList (sList sStr) (f_rows st); sB (f_wraps st); sB (f_cuts st)].
+(* the formatter: kind, whether the stream supports ANSI, the style set *)
+Definition dec_fmt (fk sa set : sexp) : option (res (bool * formatter)) :=
+  match dec_fkind fk, sa, dList dec_cstyle set with
+  | Some k, A sa, Some set => Some (do f <- new_formatter k set; Ok (format_on (negb (sa =? 0)%Z) k, f))
+  | _, _, _ => None
+  end.
 Definition run_C14 (share : Z -> Z -> Z -> Z) (s : sexp) : sexp :=
   match s with
   (* a whole table *)
-  | L [A 0%Z; A W; A ind; A n; sty; header; rows] =>
-    match dec_tstyle sty, dList dStr header, dList (dList dStr) rows with
-    | Some sty, Some header, Some rows =>
-      sRes (fun x => L (enc_fit (fst x) ++ [sStr (snd x); sB (wf_styleb sty)])) (render_table share sty (Z.to_nat n) header rows W ind)
-    | _, _, _ => sBad
+  | L [A 0%Z; A W; A ind; A n; sty; header; rows; fk; sa; set] =>
+    match dec_tstyle sty, dList dStr header, dList (dList dStr) rows, dec_fmt fk sa set with
+    | Some sty, Some header, Some rows, Some fm =>
+      sRes (fun x => L (enc_fit (fst x) ++ [sStr (snd x); sB (wf_styleb sty)]))
+           (do of <- fm; render_table_f share (fst of) (snd of) sty (Z.to_nat n) header rows W ind)
+    | _, _, _, _ => sBad
     end
   (* CellWrapper.fit alone *)
-  | L [A 1%Z; A max_total; A n; cells] =>
-    match dList dStr cells with
-    | Some cells => sRes (fun st => L (enc_fit st)) (fit share max_total (Z.to_nat n) cells)
-    | None => sBad
+  | L [A 1%Z; A max_total; A n; cells; fk; sa; set] =>
+    match dList dStr cells, dec_fmt fk sa set with
+    | Some cells, Some fm => sRes (fun x => L (enc_fit (snd x))) (do of <- fm; fit_f share (snd of) max_total (Z.to_nat n) cells)
+    | _, _ => sBad
     end
   | _ => sBad
   end.
